@@ -203,16 +203,33 @@ def run_unit(prop, unit, pcfg, cache, usize=8, seed=None, want_canary=True):
         genc = Extractor(REPO, SPEC, unit, usize_bytes=usize, canary=True).build()
         cpath = os.path.join(GEN, tag + '_canary.rs')
         open(cpath, 'w').write(genc.text)
+    def verify(path, g_, threads):
+        """run Verus; a `by (compute_only)` assertion that evaluates to false aborts Verus before SMT: that is a
+        failed obligation (a constant's value), not a tool failure -- record it and verify the remaining modules"""
+        r = vrun.run(path, mods, rlimit, threads, seed, cache)
+        cfails = []
+        if not r['have_results']:
+            comp = [d for d in r['diags'] if re.search(r'expression simplifies to .* evaluates to false', d['message']) and d.get('labels')]
+            if comp:
+                cfails, _ = map_failures({'diags': comp, 'have_results': True}, g_, unitcfg)
+                for f in cfails: f['cmd'] = r['cmd']
+                mods2 = [m for m in mods if m != 'abi_values']
+                if mods2:
+                    r = vrun.run(path, mods2, rlimit, threads, seed, cache)
+                else:
+                    r = dict(r, have_results=True, verified=0, errors=len(comp), diags=[])
+        return r, cfails
     with ThreadPoolExecutor(max_workers=2) as tp:
-        f1 = tp.submit(vrun.run, gpath, mods, rlimit, 16 if not want_canary else 10, seed, cache)
-        f2 = tp.submit(vrun.run, cpath, mods, rlimit, 6, seed, cache) if want_canary else None
-        res = f1.result()
-        cres = f2.result() if f2 else None
+        f1 = tp.submit(verify, gpath, gen, 16 if not want_canary else 10)
+        f2 = tp.submit(verify, cpath, genc, 6) if want_canary else None
+        res, comp_fails = f1.result()
+        cres = f2.result()[0] if f2 else None
     if not res['have_results']:
         fe = [d for d in res['diags']]
         msg = fe[0]['rendered'] if fe else res['raw_err_tail']
         raise Undecided('Verus produced no verification result for unit %s (front-end error or tool failure):\n%s' % (unit, msg))
     fails, undec = map_failures(res, gen, unitcfg)
+    fails = comp_fails + fails
     fe = [x for x in undec if x['kind'] == 'front-end']
     if fe:
         raise Undecided('Verus rejected unit %s before/while verifying (unsupported construct or type error): %s\n%s' % (unit, fe[0]['message'], fe[0]['rendered']))
